@@ -204,13 +204,13 @@ PROPS['C02'] = floor_prop(
      'rec': _c.only(('device_failure', 'supplied_new_part', 'received_part')), 'res': _c.only(('shut',))},
     ('rec device_failure', 'rec received_part'), 'non-trivial = at least one part was received; distinct by scenario text',
     # sys / floorl: devices created and wired while the simulation runs (C02W covers them)
-    families=[('floor', 100, 2000), ('floorc', 50, 1000), ('floors', 150, 3000), ('sys', 60, 1000), ('floorl', 40, 800)])
+    families=[('floor', 100, 2000), ('floorc', 50, 1000), ('floors', 150, 3000), ('sys', 60, 1000), ('floorl', 40, 800), ('floorq', 40, 800)])
 PROPS['C03'] = floor_prop(
     'C03', ['SimProc.Props.C03', 'SimProc.Props.C03W'], ['SimProc/Props/C03.lean', 'SimProc/Props/C03W.lean'],
     {'ev': None, 'now': None, 'ran': None, 'd': _c.fields('part', 'out', 'buf', 'wds', 'blk', 'down', 'wres', 'lvl')},
     ('d ',), 'implementation traces are produced with the deep-copy probe at every clock advance; non-trivial = a scenario '
              'in which some device waited for downstream space', runner='ProbeRunner',
-    families=[('floorc', 80, 1500), ('floor', 50, 1000), ('floors', 120, 2500)],
+    families=[('floorc', 80, 1500), ('floor', 50, 1000), ('floors', 120, 2500), ('floorq', 40, 800)],
     nontrivial=lambda st, s: any(l.startswith('d ') and ' wds=1 ' in l for l in st))
 PROPS['C04'] = floor_prop(
     'C04', ['SimProc.Props.C04', 'SimProc.Props.C04W'], ['SimProc/Props/C04.lean', 'SimProc/Props/C04W.lean'],
@@ -222,6 +222,8 @@ PROPS['C05'] = floor_prop(
     'C05', ['SimProc.Props.C05', 'SimProc.Props.C05W'], ['SimProc/Props/C05.lean', 'SimProc/Props/C05W.lean'],
     {'d': _c.only(('',), None), 'rec': _c.only(('level',))},
     ('rec level',), 'non-trivial = a buffer level changed')
+import c05 as _c05
+PROPS['C05']['extra'] = _c05.float_delay
 PROPS['C05']['tags']['d'] = lambda l: _c.fields('buf', 'lvl')(l) if ' buffer ' in l else None
 PROPS['C08'] = floor_prop(
     'C08', ['SimProc.Props.C08', 'SimProc.Props.C08W'], ['SimProc/Props/C08.lean', 'SimProc/Props/C08W.lean'],
@@ -241,7 +243,7 @@ PROPS['C13'] = floor_prop(
     'a failure must leave after restoration); non-trivial = a machine failed or was shut down', runner='ProbeRunner',
     families=[('floorm', 120, 2500), ('floor', 80, 1500), ('floorc', 40, 800), ('floorl', 60, 1000)],
     impl_only_families=[('floorr', 60, 1000)])
-PROPS['C13']['monitors'] = M.MONITORS['C13'] + M.MONITORS['C03']
+PROPS['C13']['monitors'] = M.MONITORS['C13'] + M.MONITORS['C03'] + M.MONITORS['C12']
 PROPS['C15'] = floor_prop(
     'C15', ['SimProc.Props.C15', 'SimProc.Props.Facts', 'SimProc.Props.C15W'], ['SimProc/Props/C15.lean', 'SimProc/Props/C15W.lean'],
     {'rec': None, 'd': _c.fields('lvl', 'prod', 'recv'), 'r': None, 'res': _c.only(('shut',))},
@@ -280,7 +282,8 @@ import c14 as _c14
 
 PROPS['C14'] = dict(
     modules=['SimProc.Props.C14', 'SimProc.Props.C14Split', 'SimProc.Props.C14W'], prop_files=['SimProc/Props/C14.lean', 'SimProc/Props/C14Split.lean', 'SimProc/Props/C14W.lean'],
-    families=[('env', 200, 3000), ('floor', 60, 1000)],
+    # sys: models extended between two runs (at the split point) and from inside events
+    families=[('env', 200, 3000), ('floor', 60, 1000), ('sys', 40, 800), ('floorl', 20, 400)],
     tags=tags(*BASE, 'rec', 'd', 'p'),
     monitors=[], nontrivial=env_nontrivial, stats=op_stats, divergence_is_witness=True,
     divergence_text='the model is a function of (scenario, weight function); the implementation must compute the same '
@@ -298,4 +301,6 @@ PROPS['C06'] = floor_prop(
     'C06', ['SimProc.Props.C06', 'SimProc.Props.C06W', 'SimProc.Props.C06T'], ['SimProc/Props/C06.lean', 'SimProc/Props/C06W.lean', 'SimProc/Props/C06T.lean'],
     {'ev': None, 'now': None, 'ran': None, 'd': _c.fields('part', 'out', 'down', 'cyc', 'off'),
      'rec': _c.only(('received_part', 'produced_part', 'device_failure', 'supplied_new_part'))},
-    ('rec received_part',), 'non-trivial = a part was accepted by a device')
+    ('rec received_part',), 'non-trivial = a part was accepted by a device',
+    families=[('floor', 100, 2000), ('floorc', 50, 1000), ('floors', 150, 3000), ('floorq', 60, 1000)],
+    impl_only_families=[('floorr', 80, 1500)])
